@@ -11,7 +11,12 @@ Inductive scase :=
 | SRd (v tag : Z) (c : string) (bs : bytes)
       (impl_accept : bool)            (* read() returned without raising *)
       (impl_rest : bytes)             (* what was left in the input stream (when accepted) *)
-      (impl_rewrite : option bytes).  (* write() of the decoded object; None when it raised *)
+      (impl_rewrite : option bytes)   (* write() of the decoded object; None when it raised *)
+(* acceptance and remaining stream only.  Used for accepted NON-canonical inputs in which some Boolean carries a
+   length field other than 8: Boolean.read ignores the field but keeps it, Boolean.write emits it again, so the
+   bytes re-written by the implementation are not a function of the decoded VALUE (primitive-level hidden state,
+   modelled and tied by CReenc in Base/PrimCases.v); the decode-encode-decode oracle still runs on these. *)
+| SRdA (v tag : Z) (c : string) (bs : bytes) (impl_accept : bool) (impl_rest : bytes).
 
 Definition obytes_eqb (a b : option bytes) : bool :=
   match a, b with
@@ -30,6 +35,11 @@ Definition check_scase (E : env) (fuel : nat) (s : scase) : bool :=
       | None => negb acc
       | Some (x, r) => acc && bytes_eqb r rest && obytes_eqb (wr E v fuel tag (KStruct c) x) rew
       end
+  | SRdA v tag c bs acc rest =>
+      match rd E v fuel tag (KStruct c) bs with
+      | None => negb acc
+      | Some (x, r) => acc && bytes_eqb r rest
+      end
   end.
 
 (* what the model does on a case, for disagreement reports *)
@@ -39,5 +49,10 @@ Definition model_scase (E : env) (fuel : nat) (s : scase) : option (bytes * opti
       match rd E v fuel tag (KStruct c) bs with
       | None => None
       | Some (x, r) => Some (r, wr E v fuel tag (KStruct c) x)
+      end
+  | SRdA v tag c bs _ _ =>
+      match rd E v fuel tag (KStruct c) bs with
+      | None => None
+      | Some (x, r) => Some (r, None)
       end
   end.
